@@ -10,6 +10,7 @@ import (
 	"path/filepath"
 	"sort"
 	"strings"
+	"sync"
 	"sync/atomic"
 	"testing"
 	"time"
@@ -40,11 +41,12 @@ type bpWorld struct {
 	dir   string // live data directory
 	image string // image directory (exists while an image is held)
 
-	poolHead *simBlock // the head the pool was last initialised / reset to
-	signer   types.Signer
-	txs      map[common.Hash]*types.Transaction // every transaction the harness created (with sidecar where it has one)
-	limbo    map[common.Hash]uint64             // model: included-but-not-final pool transactions -> block number of inclusion
-	gasTip   uint64
+	poolHead   *simBlock // the head the pool was last initialised / reset to
+	signer     types.Signer
+	txs        map[common.Hash]*types.Transaction // every transaction the harness created (with sidecar where it has one)
+	limbo      map[common.Hash]uint64             // model: included-but-not-final pool transactions -> block number of inclusion
+	limboStale map[common.Hash]bool               // limbo entries whose recorded block number is that of an abandoned block
+	gasTip     uint64
 
 	// store-event hook state (per operation)
 	events     int
@@ -205,6 +207,34 @@ func (w *bpWorld) openPool() {
 
 type bpInitError struct{ err error }
 
+var (
+	bpTemplateOnce sync.Once
+	bpTemplateDir  string
+)
+
+// bpTemplate creates, once per process, the data directory an empty pool leaves
+// behind after a clean Close.
+func bpTemplate() string {
+	bpTemplateOnce.Do(func() {
+		dir := filepath.Join(scratchDir(), "bp-template")
+		os.RemoveAll(dir)
+		if err := os.MkdirAll(dir, 0o755); err != nil {
+			simcore.Harnessf("mkdir: %v", err)
+		}
+		accts := accounts(1)
+		chain := newSimChain(accts, []acctModel{{Balance: new(uint256.Int)}}, 30_000_000, feeUnit, 0)
+		pool := blobpool.New(blobpool.Config{Datadir: dir, Datacap: 1 << 20, PriceBump: 100}, chain, nil)
+		if err := pool.Init(1, chain.headBlock().block.Header(), txpool.NewReservationTracker().NewHandle(0)); err != nil {
+			simcore.Harnessf("template pool: %v", err)
+		}
+		if err := pool.Close(); err != nil {
+			simcore.Harnessf("template pool close: %v", err)
+		}
+		bpTemplateDir = dir
+	})
+	return bpTemplateDir
+}
+
 func blobFeeAt(c *simChain, h *types.Header) *uint256.Int {
 	return uint256.MustFromBig(eip4844.CalcBlobFee(c.cfg, h))
 }
@@ -222,12 +252,17 @@ func runBP(t *testing.T, pl any) *simcore.Result {
 		simcore.Harnessf("plan with %d accounts", len(p.Knobs.Accts))
 	}
 	logErrs.reset()
-	w := &bpWorld{p: p, res: res, txs: map[common.Hash]*types.Transaction{}, limbo: map[common.Hash]uint64{}, gasTip: p.Knobs.GasTip, log: simcore.NewHash()}
+	w := &bpWorld{p: p, res: res, txs: map[common.Hash]*types.Transaction{}, limbo: map[common.Hash]uint64{}, limboStale: map[common.Hash]bool{}, gasTip: p.Knobs.GasTip, log: simcore.NewHash()}
 	w.root = filepath.Join(scratchDir(), fmt.Sprintf("bp-%d", bpRunSeq.Add(1)))
 	os.RemoveAll(w.root)
 	w.dir, w.image = filepath.Join(w.root, "live"), filepath.Join(w.root, "image")
-	if err := os.MkdirAll(w.dir, 0o755); err != nil {
+	if err := os.MkdirAll(w.root, 0o755); err != nil {
 		simcore.Harnessf("mkdir: %v", err)
+	}
+	// start from the data directory of a pool that has been opened and closed
+	// once before (empty shelves, store version marker written)
+	if err := copyDir(bpTemplate(), w.dir); err != nil {
+		simcore.Harnessf("copy template: %v", err)
 	}
 	defer func() {
 		if w.pool != nil {
@@ -920,7 +955,17 @@ func (w *bpWorld) checkLive(o *bpObs) *simcore.Violation {
 		}
 		w.res.Probe("limbo-entry-expected")
 		if _, ok := o.limboIx[h]; !ok {
-			return simcore.Violf("limbo-lost", "transaction %x was pooled when block %d included it; that block is not final (final %d, head %d) but its blobs are no longer in the limbo", h[:4], blk, o.final, o.head.number())
+			v := simcore.Violf("limbo-lost", "transaction %x was pooled when block %d included it; that block is not final (final %d, head %d) but its blobs are no longer in the limbo", h[:4], blk, o.final, o.head.number())
+			if w.limboStale[h] {
+				v.Key = "limbo-lost:stale-block-after-reinclusion"
+				v.Msg += " [a reorg moved the transaction to a block with a different number; the limbo kept the old number and finalised the entry by it]"
+				if simcore.IsKnown(v.Key) {
+					w.res.KnownHit(v.Key)
+					delete(w.limbo, h)
+					continue
+				}
+			}
+			return v
 		}
 		found, carried, _, cells, err := w.pool.VerifLimboGet(h)
 		if !found || err != nil || carried != h || cells == 0 {
@@ -1056,6 +1101,14 @@ func (w *bpWorld) checkOp(op *BPOp, info *bpInfo, B, A *bpObs) *simcore.Violatio
 		for h := range w.limbo {
 			if blk, ok := info.included[h]; ok {
 				w.limbo[h] = blk
+				// the pool keeps the number of the abandoned block for a transaction
+				// that moved to another height (recorded finding, see checkLive)
+				if old, was := B.limboIx[h]; was && old != blk {
+					if now, still := A.limboIx[h]; !still || now != blk {
+						w.limboStale[h] = true
+						w.res.Probe("limbo-block-number-stale")
+					}
+				}
 			}
 		}
 		// transactions of abandoned blocks that the adopted branch does not include
